@@ -132,7 +132,7 @@ impl Check for C06 {
     }
     fn cases(&self, tier: Tier) -> u64 {
         match tier {
-            Tier::Quick => 5_000,
+            Tier::Quick => 12_000,
             Tier::Thorough => 200_000,
         }
     }
@@ -319,7 +319,8 @@ impl Check for C06 {
                     if first.map(|c| c.id == x.id && c.start == x.start).unwrap_or(false) {
                         let got = hp.child_by_field_id(f);
                         if !same_opt(&got, Some(x)) {
-                            bad!("C06:node.child_by_field", "{here}: parent.child_by_field({:?}) = {}", fname, show_node(&got));
+                            let sig = if px.error { "C06:node.child_by_field:error_parent" } else { "C06:node.child_by_field" };
+                            bad!(sig, "{here}: parent.child_by_field({:?}) = {}", fname, show_node(&got));
                         }
                     }
                 }
